@@ -90,3 +90,348 @@ class HdrReal:
         except Exception as e:
             ret, err = [], type(e).__name__
         return {"all": self.flat(self.h), "call": self.flat(self.c), "ret": ret, "err": err}
+
+
+# ---------------------------------------------------------------------------------------- C32
+
+XH_NAMES = {"xff": "X-Forwarded-For", "xri": "X-Real-Ip", "xs": "X-Scheme", "xfp": "X-Forwarded-Proto"}
+
+
+def numeric_tag(text):
+    """Trusted tag: is `text` a numeric IP address (standard library, not Tornado code)."""
+    import ipaddress
+    try:
+        ipaddress.ip_address(text)
+        return True
+    except ValueError:
+        return False
+
+
+class XhReal:
+    """A real HTTPServer(xheaders=True) serving one keep-alive connection over a MemStream.
+    cfg = {sock, proto, trusted, numeric} (texts as code-point lists).  The request callback
+    reports request.remote_ip / request.protocol and answers 200 with an empty body."""
+
+    def __init__(self, cfg, variant=0):
+        import socket
+        from tornado import httpserver, httputil
+        from .vloop import Env
+        from .httpsim import ServerConn
+        from .memstream import FakeSocket
+        self.env = Env()
+        self.variant = variant
+        self.seen = []
+        sock = s2t(cfg["sock"])
+
+        def cb(request):
+            self.seen.append((request.remote_ip, request.protocol))
+            request.connection.write_headers(
+                httputil.ResponseStartLine("HTTP/1.1", 200, "OK"),
+                httputil.HTTPHeaders({"Content-Length": "0"}))
+            request.connection.finish()
+
+        proto = s2t(cfg["proto"])
+        self.server = httpserver.HTTPServer(cb, xheaders=True, protocol=None if proto == "http" else proto,
+                                            trusted_downstream=[s2t(t) for t in cfg["trusted"]])
+        if sock == "0.0.0.0":
+            fs, addr = FakeSocket(family=socket.AF_UNIX, peer="/tmp/x.sock"), "/tmp/x.sock"
+        else:
+            fs, addr = FakeSocket(peer=(sock, 54321)), (sock, 54321)
+        self.conn = ServerConn(self.env, self.server, address=addr, sock=fs)
+        self.nreq = 0
+
+    def wire(self, h):
+        self.nreq += 1
+        lines = []
+        for key in (("xff", "xri", "xs", "xfp") if not self.variant & 1 else ("xfp", "xs", "xri", "xff")):
+            name = XH_NAMES[key]
+            if self.variant & 2:
+                name = name.lower() if self.nreq % 2 else name.upper()
+            for v in h[key]:
+                lines.append(name.encode() + (b": " if not self.variant & 4 else b":") + bytes(v))
+        head = [b"GET /r%d HTTP/1.1" % self.nreq, b"Host: x"] + lines
+        return b"\r\n".join(head) + b"\r\n\r\n"
+
+    def step(self, act, args):
+        if act != "request":
+            raise ValueError(act)
+        before = len(self.seen)
+        data = self.wire(args[0])
+        if self.variant & 8:
+            mid = len(data) // 2
+            self.conn.send_chunks([data[:mid], data[mid:]])
+        else:
+            self.conn.send(data)
+        self.env.settle()
+        if len(self.seen) == before + 1:
+            ip, proto = self.seen[-1]
+            return {"ip": t2s(ip) if isinstance(ip, str) else [0], "proto": t2s(proto) if isinstance(proto, str) else [0],
+                    "n": len(self.seen), "closed": self.conn.closed()}
+        return {"ip": [0], "proto": [0], "n": len(self.seen), "closed": self.conn.closed(),
+                "out": self.conn.received()[-60:].decode("latin1")}
+
+    def close(self):
+        try:
+            self.conn.peer_close()
+            self.env.settle()
+        finally:
+            self.env.close()
+
+
+# ---------------------------------------------------------------------------------------- C09 (admission)
+
+class AdmReal:
+    """SimpleAsyncHTTPClient(max_clients=cfg.maxc) whose _connection_class is a scripted stub:
+    a started connection only records itself; the harness ends it on demand the way
+    _HTTPConnection._run_callback does (release the slot, then schedule the final callback).
+    fetch_impl is wrapped (public override point) to count completion deliveries per fetch."""
+
+    def __init__(self, cfg, nf):
+        from tornado.simple_httpclient import SimpleAsyncHTTPClient
+        from .vloop import Env
+        self.env = Env()
+        self.nf = nf
+        self.stubs = {}
+        self.starts = []
+        self.ncb = [0] * nf
+        self.futs = {}
+        self.qto = set()          # (random driver bookkeeping) fetches queued with a give-up timer
+        outer = self
+
+        class Stub:
+            def __init__(self, client, request, release_callback, final_callback, *rest):
+                self.request, self.release, self.final = request, release_callback, final_callback
+                i = int(request.url.rsplit("/", 1)[1])
+                outer.stubs[i] = self
+                outer.starts.append(i)
+
+        class Client(SimpleAsyncHTTPClient):
+            def _connection_class(self):
+                return Stub
+
+            def fetch_impl(self, request, callback):
+                i = int(request.url.rsplit("/", 1)[1])
+
+                def counted(response):
+                    outer.ncb[i - 1] += 1
+                    callback(response)
+                super().fetch_impl(request, counted)
+
+        self.client = Client(force_instance=True, max_clients=cfg["maxc"])
+
+    def proj(self):
+        st = []
+        for i in range(1, self.nf + 1):
+            f = self.futs.get(i)
+            if f is None:
+                st.append("idle")
+            elif not f.done():
+                st.append("active" if i in self.starts else "queued")
+            elif f.cancelled():
+                st.append("cancelled")
+            elif f.exception() is not None:
+                e = f.exception()
+                st.append("qtimeout" if type(e).__name__ == "HTTPTimeoutError" and "in request queue" in str(e) else "fail")
+            else:
+                st.append("ok" if f.result().code == 200 else "code%d" % f.result().code)
+        return {"st": st, "starts": list(self.starts), "ncb": list(self.ncb)}
+
+    def step(self, act, args):
+        from tornado.httpclient import HTTPResponse
+        from tornado.simple_httpclient import HTTPStreamClosedError
+        import io
+        err = None
+        try:
+            if act == "fetch":
+                i, t = args
+                self.futs[i] = self.client.fetch("http://h.test/%d" % i, raise_error=False,
+                                                 connect_timeout=t // 10, request_timeout=t % 10)
+            elif act == "finish":
+                i, ok = args
+                s = self.stubs[i]
+                if ok:
+                    resp = HTTPResponse(s.request, 200, buffer=io.BytesIO(b""))
+                else:
+                    resp = HTTPResponse(s.request, 599, error=HTTPStreamClosedError("Stream closed"))
+                s.release()
+                self.env.io_loop.add_callback(s.final, resp)
+            elif act == "advance":
+                self.env.advance(args[0])
+            else:
+                raise ValueError(act)
+        except ValueError:
+            raise
+        except Exception as e:
+            err = type(e).__name__
+        self.env.settle()
+        p = self.proj()
+        if err:
+            p["err"] = err
+        if self.env.loop.uncaught:
+            p["uncaught"] = len(self.env.loop.uncaught)
+        return p
+
+    def close(self):
+        try:
+            self.client.close()
+        finally:
+            self.env.close()
+
+
+# ---------------------------------------------------------------------------------------- C09 (redirects)
+
+RED_LOC = {1: "/p%d", 2: "http://a.test/p%d", 3: "http://b.test/p%d", 4: "http://a.test:8080/p%d",
+           5: "https://a.test/p%d", 6: "//b.test/p%d"}
+
+
+class FakeTCPClient:
+    """Stands in for tornado.tcpclient.TCPClient: every connect() returns a fresh MemStream and
+    records (host, port, ssl requested)."""
+
+    def __init__(self, env):
+        self.env = env
+        self.conns = []
+
+    async def connect(self, host, port, af=None, ssl_options=None, max_buffer_size=None, source_ip=None,
+                      source_port=None, timeout=None):
+        from .memstream import MemStream
+        s = MemStream(self.env)
+        self.conns.append({"host": host, "port": port, "ssl": ssl_options is not None, "stream": s})
+        return s
+
+    def close(self):
+        pass
+
+
+def split_request(data):
+    """Transport plumbing: raw request bytes -> (method, target, [(name, value)], body) or None."""
+    end = data.find(b"\r\n\r\n")
+    if end < 0:
+        return None
+    lines = data[:end].decode("latin1").split("\r\n")
+    parts = lines[0].split(" ")
+    hdrs = []
+    for ln in lines[1:]:
+        n, _, v = ln.partition(":")
+        hdrs.append((n.strip().lower(), v.strip()))
+    return parts[0], parts[1] if len(parts) > 1 else "", hdrs, data[end + 4:]
+
+
+class RedirReal:
+    """One fetch of http://[u:p@]a.test/p0 by a real SimpleAsyncHTTPClient with real
+    _HTTPConnections over FakeTCPClient.  step('respond', [code, loc]) lets the fake server
+    answer the request on the wire; the projection is the next request it receives (parsed
+    from the recorded bytes) or the status delivered to the caller."""
+
+    AUTH_TAGS = {"tok1": "user1", "tok2": "user2", "Basic dTpw": "basic"}
+    COOKIE_TAGS = {"k1=v1": "c1", "k2=v2": "c2"}
+
+    def __init__(self, cfg, extra_headers=None):
+        from tornado.simple_httpclient import SimpleAsyncHTTPClient
+        from tornado.httputil import HTTPHeaders
+        from tornado.httpclient import HTTPRequest
+        from .vloop import Env
+        self.env = Env()
+        self.cfg = cfg
+        self.client = SimpleAsyncHTTPClient(force_instance=True, max_clients=2)
+        self.tcp = FakeTCPClient(self.env)
+        self.client.tcp_client.close()
+        self.client.tcp_client = self.tcp
+        na, nc, creds = cfg["hdr"] // 100, (cfg["hdr"] // 10) % 10, cfg["hdr"] % 10
+        h = HTTPHeaders()
+        for v in ["tok1", "tok2"][:na]:
+            h.add("Authorization", v)
+        for v in ["k1=v1", "k2=v2"][:nc]:
+            h.add("Cookie", v)
+        for k, v in (extra_headers or []):
+            h.add(k, v)
+        if na <= 1 and nc <= 1 and not extra_headers:
+            h = dict(h.items())         # the common single-valued case goes in as a plain dict
+        kw = {}
+        if creds == 2:
+            kw = {"auth_username": "u", "auth_password": "p"}
+        meth = cfg["method"]
+        self.body = b"b=1" if meth in ("POST", "PUT", "PATCH") else None
+        url = "http://%sa.test/p0" % ("u:p@" if creds == 1 else "")
+        req = HTTPRequest(url, method=meth, headers=h, body=self.body, follow_redirects=bool(cfg["follow"]),
+                          max_redirects=cfg["maxr"], connect_timeout=0, request_timeout=50, decompress_response=False, **kw)
+        self.ncb = 0
+        self.fut = self.client.fetch(req, raise_error=False)
+        self.fut.add_done_callback(lambda f: setattr(self, "ncb", self.ncb + 1))
+        self.env.settle()
+        self.seen = 0
+
+    def _wire(self):
+        """Projection of the newest connection's request."""
+        c = self.tcp.conns[-1]
+        c["stream"].pump()
+        r = split_request(bytes(c["stream"].out))
+        if r is None:
+            return {"incomplete": True}
+        meth, target, hdrs, body = r
+        hd = {}
+        for n, v in hdrs:
+            hd.setdefault(n, []).append(v)
+        hostv = hd.get("host", [""])[0]
+        hname, _, hport = hostv.partition(":")
+        path = int(target[2:]) if target.startswith("/p") and target[2:].isdigit() else -1
+        return {"ssl": c["ssl"], "host": c["host"], "port": c["port"],
+                "hostport": int(hport) if hport.isdigit() else (0 if hname == c["host"] and len(hd.get("host", [])) == 1 else -1),
+                "method": meth, "path": path,
+                "authz": [self.AUTH_TAGS.get(v, v) for v in hd.get("authorization", [])],
+                "cookies": [self.COOKIE_TAGS.get(v, v) for v in hd.get("cookie", [])],
+                "body": len(body) > 0, "clen": "content-length" in hd, "ctype": "content-type" in hd,
+                "body_ok": body == (self.body or b"") if len(body) else True}
+
+    NOREQ = {"ssl": False, "host": "", "port": 0, "hostport": 0, "method": "", "path": 0, "authz": [], "cookies": [],
+             "body": False, "clen": False, "ctype": False}
+
+    def proj(self):
+        if self.fut.done():
+            e = self.fut.exception()
+            self.last_exc = type(e).__name__ if e is not None else None
+            done = 599 if e is not None else self.fut.result().code
+            p = {"done": done, "hops": len(self.tcp.conns) - 1, "req": dict(self.NOREQ)}
+        else:
+            w = self._wire()
+            ok = w.pop("body_ok", True)
+            p = {"done": 0, "hops": len(self.tcp.conns) - 1, "req": w}
+            if not ok:
+                p["body_corrupt"] = True
+        if self.ncb > 1:
+            p["ncb"] = self.ncb
+        return p
+
+    def step(self, act, args):
+        if act == "drop":
+            self.tcp.conns[-1]["stream"].feed_eof()
+            self.env.settle()
+            return self.proj()
+        if act == "timeout":
+            self.env.advance(50)
+            return self.proj()
+        if act != "respond":
+            raise ValueError(act)
+        code, loc = args[0], args[1]
+        location = args[2] if len(args) > 2 else (RED_LOC[loc] % len(self.tcp.conns) if loc else None)
+        c = self.tcp.conns[-1]
+        resp = b"HTTP/1.1 %d X\r\nContent-Length: 0\r\n" % code
+        if location is not None:
+            resp += b"Location: " + location.encode("latin1") + b"\r\n"
+        resp += b"\r\n"
+        c["stream"].feed(resp)
+        self.env.settle()
+        for cc in self.tcp.conns:
+            cc["stream"].pump()
+        self.env.settle()
+        return self.proj()
+
+    def close(self):
+        try:
+            for cc in self.tcp.conns:
+                if not cc["stream"].closed():
+                    cc["stream"].close()
+            self.env.settle()
+            self.client.close()
+        finally:
+            self.env.close()
